@@ -79,7 +79,7 @@ class Workload:
         self.numeric = set(numeric_keys or ())
         allm = list(READS + STORES + MISC + ADMIN)
         if stack in ("client", "pooled"):
-            allm += ["raw_version"]
+            allm += ["raw_version", "raw_miss", "shutdown"]
         if stack == "hash":
             allm.remove("version")
         self.methods = [m for m in allm if methods is None or m in methods]
@@ -120,7 +120,16 @@ class Workload:
             self.noreply(k)
         elif m == "set_many":
             keys = self.some_keys()
-            a = [E({kk: self.value(kk) for kk in keys})]
+            d = {kk: self.value(kk) for kk in keys}
+            if rng.random() < 0.15:
+                # the same memcached key in its other spelling as well (str / bytes): two commands, two replies
+                k0 = keys[0]
+                try:
+                    alt = k0.decode("ascii") if isinstance(k0, bytes) else k0.encode("ascii")
+                    d[alt] = self.value(k0)
+                except (UnicodeDecodeError, UnicodeEncodeError):
+                    pass
+            a = [E(d)]
             if rng.random() < 0.3:
                 k["expire"] = rng.choice([0, 100])
             self.noreply(k)
@@ -164,6 +173,13 @@ class Workload:
             self.noreply(k)
         elif m == "raw_version":
             return {"t": "call", "m": "raw_command", "a": [E(b"version")], "k": {}}
+        elif m == "raw_miss":
+            # a raw command read up to a multi-byte end token (the reply is just that token: the key is never stored)
+            return {"t": "call", "m": "raw_command", "a": [E(b"get never-stored-key"), E(b"END\r\n")], "k": {}}
+        elif m == "shutdown":
+            # the simulated servers run without --enable-shutdown: they answer with an error line
+            if rng.random() < 0.3:
+                k["graceful"] = rng.choice([True, False])
         elif m in ("version", "stats", "quit"):
             pass
         return {"t": "call", "m": m, "a": a, "k": k}
